@@ -1089,6 +1089,13 @@ class BaseResolver:
             raise LifetimeTimeout(timeout=duration, errors=errors)
         return min(lifetime - duration, self.timeout)
 
+    def _remaining_lifetime(self, start: float, lifetime: float | None = None) -> float:
+        # What is left of an overall lifetime that began at *start*; unlike
+        # _compute_timeout(), not capped by the per-query timeout.
+        self._compute_timeout(start, lifetime)  # raises LifetimeTimeout if none is left
+        lifetime = self.lifetime if lifetime is None else lifetime
+        return max(lifetime - max(time.time() - start, 0), 0)
+
     def _get_qnames_to_try(
         self, qname: dns.name.Name, search: bool | None
     ) -> list[dns.name.Name]:
@@ -1435,7 +1442,7 @@ class Resolver(BaseResolver):
             name,
             dns.rdatatype.AAAA,
             raise_on_no_answer=False,
-            lifetime=self._compute_timeout(start, lifetime),
+            lifetime=self._remaining_lifetime(start, lifetime),
             **modified_kwargs,
         )
         # Note that setting name ensures we query the same name
@@ -1448,7 +1455,7 @@ class Resolver(BaseResolver):
             name,
             dns.rdatatype.A,
             raise_on_no_answer=False,
-            lifetime=self._compute_timeout(start, lifetime),
+            lifetime=self._remaining_lifetime(start, lifetime),
             **modified_kwargs,
         )
         answers = HostAnswers.make(v6=v6, v4=v4, add_empty=not raise_on_no_answer)
